@@ -88,9 +88,10 @@ pub fn run(ctx: &mut Ctx) -> bool {
             blackbox::run_c18_blackbox(ctx);
         }
         "C10" => {
-            ctx.rule = "Counts: cases are games with a repetition tail (a walk, then 0-25 out-and-back four-ply cycles, optionally cut short; from startpos, corpus and constructed starts) given to the engine's `position` handler; for every distinct position of the game (oracle identity: placement, side, rights, en passant target) the repetition record must hold exactly its multiplicity and the record's total must be plies+1. Search: games in which the side to move has a move into a position that already occurred >= 2 times (2..6 cycles, endgames with a material gap so the loser is often to move); the last info line of every completed depth 1..4 must be cp >= 0 or mate > 0, and the record is left as given. Non-trivial: a history with a position of multiplicity >= 2 (counts); the side to move materially lost (static eval < -150) with such a move available (search); distinct by game.".into();
+            ctx.rule = "Counts: cases are games with a repetition tail (a walk, then 0-25 out-and-back four-ply cycles, optionally cut short; from startpos, corpus and constructed starts) given to the engine's `position` handler; for every distinct position of the game (oracle identity: placement, side, rights, en passant target) the repetition record must hold exactly its multiplicity and the record's total must be plies+1. Search: games in which the side to move has a move into a position that already occurred >= 2 times (2..6 cycles, endgames with a material gap so the loser is often to move); the last info line of every completed depth 1..4 must be cp >= 0 or mate > 0, and the record is left as given. Black-box: `position ... moves ...` + timed go on the real binary against a direct in-process call of the search on the board and record the handler produces - the (depth, nodes, score, first pv move) sequences must agree on their common prefix (so the search really receives the whole game record). Non-trivial: a history with a position of multiplicity >= 2 (counts); the side to move materially lost (static eval < -150) with such a move available (search); distinct by game.".into();
             ctx.assumptions = vec!["position identity uses the FEN convention for the en passant target (set after every double step), which both the engine and the oracle follow".into(), "the reset between `position` commands inside the UCI loop is exercised black-box (C16 sessions)".into()];
             searchsem::run_c10(ctx);
+            blackbox::run_c10_blackbox(ctx);
         }
         "C11" => {
             ctx.rule = "Cases are positions built by a near-mate constructor (cornered king, 1-3 heavy attackers or a seventh-rank pawn, defender's men as self-blocks), variants moving the mating piece back along its own move or replacing a mating N/R/B on the last rank by a pawn about to promote (mates deliverable only by under-promotion), positions one or two plies before those, endgame / game walks, and the exhaustive mini-family of king + minor piece v king + minor piece positions (defending king in a corner region) that contain a mate in one. The oracle's solver classifies each (mate in 1, mate in 1 only by under-promotion/castling/en passant, avoidable mate-in-1 threat, unavoidable, stalemate available, none). Under the virtual clock: (i) mate in 1 exists => every move handed back from the first depth-2 line on mates (timeline of the reference run, confirmed by real re-runs); (ii) avoidable threat => from the first depth-3 line on the move played does not allow mate in 1; (iii) `mate N` with N>0 on any line => the solver finds a forced mate in <= N; N<0 on the last line of a completed depth => the side to move is mated within |N|; mate 0 never; |N|>3 or solver budget exceeded = unjudged. Non-trivial = class is not `none`; distinct by position.".into();
@@ -167,6 +168,7 @@ pub fn replay(prop: &str, _family: &str, case: &Value) -> CaseResult {
         "C06" => statics::replay_c06(case),
         "C14" => statics::replay_c14(case),
         "C15" => fen::replay_c15(case),
+        "C10" if case.get("uci_vs_direct").is_some() => blackbox::replay_c10_blackbox(case),
         "C10" => searchsem::replay_c10(case),
         "C11" => searchsem::replay_c11(case),
         "C12" => searchsem::replay_c12(case),
